@@ -70,7 +70,7 @@ EXPANDABLE = set(IF_PRIMS) | {'else', 'or', 'fi', 'csname', 'expandafter', 'arab
 PRIMS = ['def', 'gdef', 'newcommand', 'renewcommand', 'let', 'csname', 'endcsname', 'expandafter', 'relax',
          'else', 'or', 'fi', 'newif', 'catcode', 'makeatletter', 'makeatother', 'begingroup', 'endgroup',
          'newcounter', 'setcounter', 'addtocounter', 'stepcounter', 'arabic', 'value', 'par', 'begin', 'end', 'item',
-         'textbf', 'mbox', 'emph', '\\', 'global', 'ifthenelse', 'whiledo', 'newboolean', 'setboolean', 'number'] + list(IF_PRIMS)
+         'textbf', 'mbox', 'emph', '\\', '(', ')', 'global', 'ifthenelse', 'whiledo', 'newboolean', 'setboolean', 'number'] + list(IF_PRIMS)
 
 UNITS = {'pt': Fraction(1), 'pc': Fraction(12), 'in': Fraction(7227, 100), 'bp': Fraction(7227, 7200), 'cm': Fraction(7227, 254),
          'mm': Fraction(7227, 2540), 'dd': Fraction(1238, 1157), 'cc': Fraction(14856, 1157), 'sp': Fraction(1, 65536)}
@@ -852,6 +852,12 @@ class Interp(object):
             self.begin_group('cell')
         self.out.append(' ')
 
+    def p_lparen(self, t):
+        self.begin_group('$')
+
+    def p_rparen(self, t):
+        self.end_group('$')
+
     def p_item(self, t):
         self.out.append(' ')
 
@@ -860,9 +866,10 @@ class Interp(object):
         x = self._next_nonspace()
         if x is None or x[0] != BG:
             raise OutOfModel('unbraced argument of %r' % (t,))
+        body = self.read_balanced()
         self.begin_group('arg')
         self.push([('cs', '@endarg')])
-        self.push(self.read_balanced())
+        self.push(body)
         if '@endarg' not in self.meaning:
             self.meaning['@endarg'] = Prim('@endarg')
 
@@ -880,6 +887,10 @@ class Interp(object):
 def _pyname(n):
     if n == '\\':
         return 'backslash'
+    if n == '(':
+        return 'lparen'
+    if n == ')':
+        return 'rparen'
     if n == '@endarg':
         return '_endarg'
     if n.startswith('set:'):
